@@ -1,7 +1,7 @@
 #!/bin/bash
 # usage: tools/try_seed.sh <patch.diff> <Cxx> [tier]   — apply a seeded change to /repo, run the check, revert.
 set -u
-patch="$1"; id="$2"; tier="${3:-quick}"
+patch="$(realpath "$1")"; id="$2"; tier="${3:-quick}"
 cd /repo
 if ! git diff --quiet; then echo "/repo not clean"; exit 3; fi
 if ! git apply "$patch" 2>/dev/null; then
